@@ -199,15 +199,22 @@ package controller
 
 // ---------------------------------------------------------------- scale_down.go: tainting
 
+// by-name vocabulary (no existentials): the node an event targets is LNby[Jname[k]]
+//@ spec allU(L []*v1.Node) bool = forall j :: 0 <= j && j < len(L) ==> clsU(L[j])
+//@ spec allT(L []*v1.Node) bool = forall j :: 0 <= j && j < len(L) ==> clsT(L[j])
+//@ spec allF(L []*v1.Node) bool = forall j :: 0 <= j && j < len(L) ==> clsF(L[j])
+
 // taintOldestN. C03: at most max(n,0) successful taint writes. C11: no write in dry mode.
+// Every write targets one of the nodes given (an untainted, uncordoned listed node).
 //@ func (*Controller).taintOldestN(c, nodes, nodeGroup, n) (res)
-//@   requires c != nil && nodeGroup != nil && c.Client != nil && n >= 0
-//@   requires forall i :: 0 <= i && i < len(nodes) ==> nodes[i] != nil
+//@   requires c != nil && nodeGroup != nil && c.Client != nil && n >= 0 && k8s.named(nodes)
+//@   requires [C01,C09,C10,C12] !dry(c, nodeGroup) ==> allU(nodes)
 //@   modifies Jlen, Jkind, Jname, Jnode, Jok, Jesc, clock, nTaintOK, nUntaintOK, getSeen, nodeGroup.taintTracker, elems(nodeGroup.taintTracker)
 //@   ensures len(res) <= n && Jlen >= old(Jlen) && jprefix(old(Jlen)) && clock >= old(clock)
 //@   ensures [C03,C06] nUntaintOK == old(nUntaintOK) && old(nTaintOK) <= nTaintOK && nTaintOK - old(nTaintOK) <= len(res)
 //@   ensures [C11] dry(c, nodeGroup) ==> Jlen == old(Jlen)
-//@   ensures forall k :: old(Jlen) <= k && k < Jlen ==> Jkind[k] == K_UPDATE && (exists i :: 0 <= i && i < len(nodes) && nodes[i].Name == Jname[k])
+//@   ensures forall k :: old(Jlen) <= k && k < Jlen ==> Jkind[k] == K_UPDATE
+//@   ensures [C01,C09,C10,C12] forall k :: old(Jlen) <= k && k < Jlen ==> LNby[Jname[k]] != nil && clsU(LNby[Jname[k]])
 //@ loop #0
 //@   modifies elems(sorted)
 //@   invariant len(sorted) == #i && base(sorted) == entry(base(sorted)) && cap(sorted) == len(nodes) && off(sorted) == 0
@@ -219,7 +226,8 @@ package controller
 //@   invariant len(taintedIndices) <= n && Jlen >= old(Jlen) && jprefix(old(Jlen)) && clock >= old(clock)
 //@   invariant [C03,C06] nUntaintOK == old(nUntaintOK) && old(nTaintOK) <= nTaintOK && nTaintOK - old(nTaintOK) <= len(taintedIndices)
 //@   invariant dry(c, nodeGroup) ==> Jlen == old(Jlen)
-//@   invariant forall k :: old(Jlen) <= k && k < Jlen ==> Jkind[k] == K_UPDATE && (exists p :: 0 <= p && p < len(sorted) && sorted[p].node.Name == Jname[k])
+//@   invariant forall k :: old(Jlen) <= k && k < Jlen ==> Jkind[k] == K_UPDATE
+//@   invariant [C01,C09,C10,C12] forall k :: old(Jlen) <= k && k < Jlen ==> LNby[Jname[k]] != nil && clsU(LNby[Jname[k]])
 //@   invariant forall p :: 0 <= p && p < len(sorted) ==> sorted[p].node != nil && 0 <= sorted[p].index && sorted[p].index < len(nodes) && sorted[p].node == nodes[sorted[p].index]
 
 // ---------------------------------------------------------------- scale_up.go: untainting
@@ -227,13 +235,14 @@ package controller
 // untaintNewestN. C07: at most n successful untaints, and when fewer than n succeeded every
 // tainted node given was attempted (its fresh copy was fetched). C11: no write in dry mode.
 //@ func (*Controller).untaintNewestN(c, nodes, nodeGroup, n) (res)
-//@   requires c != nil && nodeGroup != nil && c.Client != nil && n >= 0
-//@   requires forall i :: 0 <= i && i < len(nodes) ==> nodes[i] != nil
+//@   requires c != nil && nodeGroup != nil && c.Client != nil && n >= 0 && k8s.named(nodes)
+//@   requires [C01,C09,C10,C12] !dry(c, nodeGroup) ==> allT(nodes)
 //@   modifies Jlen, Jkind, Jname, Jnode, Jok, Jesc, nTaintOK, nUntaintOK, getSeen, nodeGroup.taintTracker, elems(nodeGroup.taintTracker)
 //@   ensures len(res) <= n && Jlen >= old(Jlen) && jprefix(old(Jlen))
 //@   ensures [C03,C06,C07] nTaintOK == old(nTaintOK) && old(nUntaintOK) <= nUntaintOK && nUntaintOK - old(nUntaintOK) <= len(res)
 //@   ensures [C11] dry(c, nodeGroup) ==> Jlen == old(Jlen)
-//@   ensures forall k :: old(Jlen) <= k && k < Jlen ==> Jkind[k] == K_UPDATE && (exists i :: 0 <= i && i < len(nodes) && nodes[i].Name == Jname[k])
+//@   ensures forall k :: old(Jlen) <= k && k < Jlen ==> Jkind[k] == K_UPDATE
+//@   ensures [C01,C09,C10,C12] forall k :: old(Jlen) <= k && k < Jlen ==> LNby[Jname[k]] != nil && clsT(LNby[Jname[k]])
 //@   ensures [C07] !dry(c, nodeGroup) && len(res) < n ==> (forall i :: 0 <= i && i < len(nodes) && k8s.hasEsc(nodes[i]) ==> getSeen[nodes[i].Name])
 //@ loop #0
 //@   modifies elems(sorted)
@@ -245,7 +254,8 @@ package controller
 //@   invariant len(untaintedIndices) <= n && Jlen >= old(Jlen) && jprefix(old(Jlen))
 //@   invariant [C03,C06,C07] nTaintOK == old(nTaintOK) && old(nUntaintOK) <= nUntaintOK && nUntaintOK - old(nUntaintOK) <= len(untaintedIndices)
 //@   invariant dry(c, nodeGroup) ==> Jlen == old(Jlen)
-//@   invariant forall k :: old(Jlen) <= k && k < Jlen ==> Jkind[k] == K_UPDATE && (exists p :: 0 <= p && p < len(sorted) && sorted[p].node.Name == Jname[k])
+//@   invariant forall k :: old(Jlen) <= k && k < Jlen ==> Jkind[k] == K_UPDATE
+//@   invariant [C01,C09,C10,C12] forall k :: old(Jlen) <= k && k < Jlen ==> LNby[Jname[k]] != nil && clsT(LNby[Jname[k]])
 //@   invariant forall p :: 0 <= p && p < len(sorted) ==> sorted[p].node != nil && 0 <= sorted[p].index && sorted[p].index < len(nodes) && sorted[p].node == nodes[sorted[p].index]
 //@   invariant [C07] !dry(c, nodeGroup) ==> (forall p :: 0 <= p && p < #i && k8s.hasEsc(sorted[p].node) ==> getSeen[sorted[p].node.Name])
 //@   invariant [C07] forall s string :: old(getSeen)[s] ==> getSeen[s]
@@ -256,24 +266,28 @@ package controller
 //@ spec namedIn(name string, s []*v1.Node) bool = exists i :: 0 <= i && i < len(s) && s[i].Name == name
 
 //@ func (*Controller).scaleUpUntaint(c, opts) (n, err)
-//@   requires c != nil && opts.nodeGroup != nil && c.Client != nil && opts.nodesDelta >= 0 && nodesOK(opts.taintedNodes)
+//@   requires c != nil && opts.nodeGroup != nil && c.Client != nil && opts.nodesDelta >= 0 && k8s.named(opts.taintedNodes)
+//@   requires [C01,C09,C10,C12] !dry(c, opts.nodeGroup) ==> allT(opts.taintedNodes)
 //@   modifies Jlen, Jkind, Jname, Jnode, Jok, Jesc, nTaintOK, nUntaintOK, getSeen, opts.nodeGroup.taintTracker, elems(opts.nodeGroup.taintTracker)
 //@   ensures err == nil && 0 <= n && n <= opts.nodesDelta && Jlen >= old(Jlen) && jprefix(old(Jlen))
 //@   ensures [C03,C06,C07] nTaintOK == old(nTaintOK) && old(nUntaintOK) <= nUntaintOK && nUntaintOK - old(nUntaintOK) <= n
 //@   ensures [C11] dry(c, opts.nodeGroup) ==> Jlen == old(Jlen)
-//@   ensures forall k :: old(Jlen) <= k && k < Jlen ==> Jkind[k] == K_UPDATE && namedIn(Jname[k], opts.taintedNodes)
+//@   ensures forall k :: old(Jlen) <= k && k < Jlen ==> Jkind[k] == K_UPDATE
+//@   ensures [C01,C09,C10,C12] forall k :: old(Jlen) <= k && k < Jlen ==> LNby[Jname[k]] != nil && clsT(LNby[Jname[k]])
 //@   ensures [C07] !dry(c, opts.nodeGroup) && n < opts.nodesDelta ==> (forall i :: 0 <= i && i < len(opts.taintedNodes) && k8s.hasEsc(opts.taintedNodes[i]) ==> getSeen[opts.taintedNodes[i].Name])
 
 // ScaleUp. C07: untaint first; at most one cloud request, as the last event, for exactly the
 // remainder after the clamp; never while a tainted node was left unattempted.
 // C02/C18: the lock is armed iff the cloud accepted the increase, after it, at the current clock.
 //@ func (*Controller).ScaleUp(c, opts) (n, err)
-//@   requires c != nil && opts.nodeGroup != nil && c.Client != nil && c.cloudProvider != nil && opts.nodesDelta >= 0 && nodesOK(opts.taintedNodes)
+//@   requires c != nil && opts.nodeGroup != nil && c.Client != nil && c.cloudProvider != nil && opts.nodesDelta >= 0 && k8s.named(opts.taintedNodes)
+//@   requires [C01,C09,C10,C12] !dry(c, opts.nodeGroup) ==> allT(opts.taintedNodes)
 //@   modifies Jlen, Jkind, Jname, Jnode, Jok, Jesc, Jnum, nTaintOK, nUntaintOK, getSeen, clock, opts.nodeGroup.taintTracker, elems(opts.nodeGroup.taintTracker), opts.nodeGroup.scaleUpLock.isLocked, opts.nodeGroup.scaleUpLock.requestedNodes, opts.nodeGroup.scaleUpLock.lockTime
 //@   ensures Jlen >= old(Jlen) && jprefix(old(Jlen)) && clock >= old(clock)
 //@   ensures [C03,C06,C07] nTaintOK == old(nTaintOK) && old(nUntaintOK) <= nUntaintOK && nUntaintOK - old(nUntaintOK) <= opts.nodesDelta
 //@   ensures [C11] dry(c, opts.nodeGroup) ==> Jlen == old(Jlen)
-//@   ensures forall k :: old(Jlen) <= k && k < Jlen ==> (Jkind[k] == K_UPDATE && namedIn(Jname[k], opts.taintedNodes)) || (Jkind[k] == C_INCREASE && k == Jlen - 1 && Jname[k] == gid(opts.nodeGroup) && Jnum[k] >= 1)
+//@   ensures forall k :: old(Jlen) <= k && k < Jlen ==> Jkind[k] == K_UPDATE || (Jkind[k] == C_INCREASE && k == Jlen - 1 && Jname[k] == gid(opts.nodeGroup) && Jnum[k] >= 1)
+//@   ensures [C01,C09,C10,C12] forall k :: old(Jlen) <= k && k < Jlen && Jkind[k] == K_UPDATE ==> LNby[Jname[k]] != nil && clsT(LNby[Jname[k]])
 //@   ensures [C04] forall k :: old(Jlen) <= k && k < Jlen && Jkind[k] == C_INCREASE ==> tgt(gid(opts.nodeGroup)) + Jnum[k] <= min(opts.nodeGroup.Opts.MaxNodes, cmax(gid(opts.nodeGroup)))
 //@   ensures [C07] Jlen > old(Jlen) && Jkind[Jlen - 1] == C_INCREASE ==> (exists u :: 0 <= u && u < opts.nodesDelta && nUntaintOK - old(nUntaintOK) <= u && Jnum[Jlen - 1] == min(opts.nodesDelta - u, min(opts.nodeGroup.Opts.MaxNodes, cmax(gid(opts.nodeGroup))) - tgt(gid(opts.nodeGroup))))
 //@   ensures [C07] Jlen > old(Jlen) && Jkind[Jlen - 1] == C_INCREASE && !dry(c, opts.nodeGroup) ==> (forall i :: 0 <= i && i < len(opts.taintedNodes) && k8s.hasEsc(opts.taintedNodes[i]) ==> getSeen[opts.taintedNodes[i].Name])
@@ -284,13 +298,15 @@ package controller
 
 // scaleDownTaint. C03: never more successful taints than untainted - min_nodes; refuses below the minimum.
 //@ func (*Controller).scaleDownTaint(c, opts) (n, err)
-//@   requires c != nil && opts.nodeGroup != nil && c.Client != nil && opts.nodesDelta >= 0 && nodesOK(opts.untaintedNodes)
+//@   requires c != nil && opts.nodeGroup != nil && c.Client != nil && opts.nodesDelta >= 0 && k8s.named(opts.untaintedNodes)
+//@   requires [C01,C09,C10,C12] !dry(c, opts.nodeGroup) ==> allU(opts.untaintedNodes)
 //@   modifies Jlen, Jkind, Jname, Jnode, Jok, Jesc, clock, nTaintOK, nUntaintOK, getSeen, opts.nodeGroup.taintTracker, elems(opts.nodeGroup.taintTracker)
 //@   ensures Jlen >= old(Jlen) && jprefix(old(Jlen)) && clock >= old(clock)
 //@   ensures [C03,C06] nUntaintOK == old(nUntaintOK) && old(nTaintOK) <= nTaintOK && nTaintOK - old(nTaintOK) <= max(0, len(opts.untaintedNodes) - opts.nodeGroup.Opts.MinNodes) && nTaintOK - old(nTaintOK) <= opts.nodesDelta
 //@   ensures [C03] len(opts.untaintedNodes) < opts.nodeGroup.Opts.MinNodes ==> err != nil && Jlen == old(Jlen) && nTaintOK == old(nTaintOK)
 //@   ensures [C11] dry(c, opts.nodeGroup) ==> Jlen == old(Jlen)
-//@   ensures forall k :: old(Jlen) <= k && k < Jlen ==> Jkind[k] == K_UPDATE && namedIn(Jname[k], opts.untaintedNodes)
+//@   ensures forall k :: old(Jlen) <= k && k < Jlen ==> Jkind[k] == K_UPDATE
+//@   ensures [C01,C09,C10,C12] forall k :: old(Jlen) <= k && k < Jlen ==> LNby[Jname[k]] != nil && clsU(LNby[Jname[k]])
 //@   ensures err == nil ==> 0 <= n && n <= opts.nodesDelta
 
 // ---------------------------------------------------------------- scale_down.go: reaping
@@ -303,7 +319,7 @@ package controller
 //@   ensures d == sat64(t - u)
 
 // annotated(n): non-empty atlassian.com/no-delete annotation
-//@ spec annotated(n *v1.Node) bool = has(n.Annotations, NodeEscalatorIgnoreAnnotation) && n.Annotations[NodeEscalatorIgnoreAnnotation] != ""
+//@ opaque spec annotated(n *v1.Node) bool = has(n.Annotations, NodeEscalatorIgnoreAnnotation) && n.Annotations[NodeEscalatorIgnoreAnnotation] != ""
 //@ func safeFromDeletion(node) (why, ok)
 //@   requires node != nil
 //@   ensures ok <==> annotated(node)
@@ -317,7 +333,7 @@ package controller
 // taintAge(n, i, c): how long ago (at clock c) the time recorded in taint i of n was
 //@ spec taintAge(n *v1.Node, i int, c int) int = sat64(c - k8s.parseIntVal(n.Spec.Taints[i].Value) * 1000000000)
 // reapable(n, g, c): the escalator-taint rule of C01/C10 at clock reading c, with emptiness judged on the group's node-info map
-//@ spec reapable(n *v1.Node, g *NodeGroupState, c int) bool = !annotated(n) && (exists i :: k8s.keyAt(n, k8s.ToBeRemovedByAutoscalerKey, i) && k8s.taintTimeOK(n.Spec.Taints[i].Value) && taintAge(n, i, c) > soft(g) && (k8s.nodeEmptyIn(n, g.NodeInfoMap) || taintAge(n, i, c) > hard(g)))
+//@ opaque spec reapable(n *v1.Node, g *NodeGroupState, c int) bool = !annotated(n) && (exists i :: k8s.keyAt(n, k8s.ToBeRemovedByAutoscalerKey, i) && k8s.taintTimeOK(n.Spec.Taints[i].Value) && taintAge(n, i, c) > soft(g) && (k8s.nodeEmptyIn(n, g.NodeInfoMap) || taintAge(n, i, c) > hard(g)))
 
 // TryDeleteNodes: cloud first (one C_DELNODE per node), Kubernetes only if the cloud accepted all.
 //@ ghost Jerr [int]iface
@@ -338,44 +354,50 @@ package controller
 // the tainted nodes given, not annotated, with a readable taint time older than the soft grace period
 // and (empty or older than the hard grace period). C11: nothing in dry mode.
 //@ func (*Controller).TryRemoveTaintedNodes(c, opts) (n, err)
-//@   requires c != nil && opts.nodeGroup != nil && c.Client != nil && c.cloudProvider != nil && nodesOK(opts.taintedNodes)
+//@   requires c != nil && opts.nodeGroup != nil && c.Client != nil && c.cloudProvider != nil && k8s.named(opts.taintedNodes)
 //@   requires k8s.infoMapOK(opts.nodeGroup.NodeInfoMap) && durCacheOK(optsOf(opts.nodeGroup))
+//@   requires [C01,C09,C10,C12] !dry(c, opts.nodeGroup) ==> allT(opts.taintedNodes)
 //@   modifies Jlen, Jkind, Jname, Jnode, Jok, clock, opts.nodeGroup.Opts.softDeleteGracePeriodDuration, opts.nodeGroup.Opts.hardDeleteGracePeriodDuration
 //@   ensures Jlen >= old(Jlen) && jprefix(old(Jlen)) && clock >= old(clock) && durCacheOK(optsOf(opts.nodeGroup))
 //@   ensures [C11] dry(c, opts.nodeGroup) ==> Jlen == old(Jlen)
-//@   ensures [C01,C09,C10,C12] forall k :: old(Jlen) <= k && k < Jlen ==> (Jkind[k] == C_DELNODE || Jkind[k] == K_DELETE) && (exists i :: 0 <= i && i < len(opts.taintedNodes) && opts.taintedNodes[i].Name == Jname[k] && reapable(opts.taintedNodes[i], opts.nodeGroup, clock))
+//@   ensures forall k :: old(Jlen) <= k && k < Jlen ==> Jkind[k] == C_DELNODE || Jkind[k] == K_DELETE
+//@   ensures [C01,C09,C10,C12] forall k :: old(Jlen) <= k && k < Jlen ==> LNby[Jname[k]] != nil && clsT(LNby[Jname[k]]) && reapable(LNby[Jname[k]], opts.nodeGroup, clock)
 //@   ensures [C19] forall k :: old(Jlen) <= k && k < Jlen && Jkind[k] == K_DELETE ==> (forall j :: old(Jlen) <= j && j < k && Jkind[j] == C_DELNODE ==> Jok[j])
 //@ loop #0
 //@   modifies opts.nodeGroup.Opts.softDeleteGracePeriodDuration, opts.nodeGroup.Opts.hardDeleteGracePeriodDuration
-//@   invariant nodesOK(toBeDeleted) && (base(toBeDeleted) == nil || birth(base(toBeDeleted)) >= entry(now)) && Jlen == old(Jlen) && clock >= old(clock) && durCacheOK(optsOf(opts.nodeGroup))
+//@   invariant k8s.named(toBeDeleted) && (base(toBeDeleted) == nil || birth(base(toBeDeleted)) >= entry(now)) && Jlen == old(Jlen) && clock >= old(clock) && durCacheOK(optsOf(opts.nodeGroup))
 //@   invariant dry(c, opts.nodeGroup) ==> len(toBeDeleted) == 0
-//@   invariant forall j :: 0 <= j && j < len(toBeDeleted) ==> (exists i :: 0 <= i && i < len(opts.taintedNodes) && toBeDeleted[j] == opts.taintedNodes[i] && reapable(opts.taintedNodes[i], opts.nodeGroup, clock))
+//@   invariant [C01,C09,C10,C12] forall j :: 0 <= j && j < len(toBeDeleted) ==> clsT(toBeDeleted[j]) && reapable(toBeDeleted[j], opts.nodeGroup, clock)
 
 // forceReapable(n, g): the force-removal rule of C01 (emptiness judged on the group's node-info map)
 //@ spec forceReapable(n *v1.Node, g *NodeGroupState) bool = k8s.nodeEmptyIn(n, g.NodeInfoMap)
 
 //@ func (*Controller).TryRemoveForceTaintedNodes(c, opts) (n, err)
-//@   requires c != nil && opts.nodeGroup != nil && c.Client != nil && c.cloudProvider != nil && nodesOK(opts.forceTaintedNodes)
+//@   requires c != nil && opts.nodeGroup != nil && c.Client != nil && c.cloudProvider != nil && k8s.named(opts.forceTaintedNodes)
 //@   requires k8s.infoMapOK(opts.nodeGroup.NodeInfoMap)
+//@   requires [C01,C09,C10,C12] !dry(c, opts.nodeGroup) ==> allF(opts.forceTaintedNodes)
 //@   modifies Jlen, Jkind, Jname, Jnode, Jok
 //@   ensures Jlen >= old(Jlen) && jprefix(old(Jlen))
 //@   ensures [C11] dry(c, opts.nodeGroup) ==> Jlen == old(Jlen)
-//@   ensures [C01,C09,C10,C12] forall k :: old(Jlen) <= k && k < Jlen ==> (Jkind[k] == C_DELNODE || Jkind[k] == K_DELETE) && (exists i :: 0 <= i && i < len(opts.forceTaintedNodes) && opts.forceTaintedNodes[i].Name == Jname[k] && forceReapable(opts.forceTaintedNodes[i], opts.nodeGroup))
+//@   ensures forall k :: old(Jlen) <= k && k < Jlen ==> Jkind[k] == C_DELNODE || Jkind[k] == K_DELETE
+//@   ensures [C01,C09,C10,C12] forall k :: old(Jlen) <= k && k < Jlen ==> LNby[Jname[k]] != nil && clsF(LNby[Jname[k]]) && forceReapable(LNby[Jname[k]], opts.nodeGroup)
 //@   ensures [C19] forall k :: old(Jlen) <= k && k < Jlen && Jkind[k] == K_DELETE ==> (forall j :: old(Jlen) <= j && j < k && Jkind[j] == C_DELNODE ==> Jok[j])
 //@ loop #0
-//@   invariant nodesOK(toBeDeleted) && (base(toBeDeleted) == nil || birth(base(toBeDeleted)) >= entry(now)) && Jlen == old(Jlen)
+//@   invariant k8s.named(toBeDeleted) && (base(toBeDeleted) == nil || birth(base(toBeDeleted)) >= entry(now)) && Jlen == old(Jlen)
 //@   invariant dry(c, opts.nodeGroup) ==> len(toBeDeleted) == 0
-//@   invariant forall j :: 0 <= j && j < len(toBeDeleted) ==> (exists i :: 0 <= i && i < len(opts.forceTaintedNodes) && toBeDeleted[j] == opts.forceTaintedNodes[i] && forceReapable(opts.forceTaintedNodes[i], opts.nodeGroup))
+//@   invariant [C01,C09,C10,C12] forall j :: 0 <= j && j < len(toBeDeleted) ==> clsF(toBeDeleted[j]) && forceReapable(toBeDeleted[j], opts.nodeGroup)
 
 // ScaleDown = reap expired tainted nodes, then taint. A not-in-group error from the reaper stops it.
 //@ func (*Controller).ScaleDown(c, opts) (n, err)
-//@   requires c != nil && opts.nodeGroup != nil && c.Client != nil && c.cloudProvider != nil && nodesOK(opts.taintedNodes) && nodesOK(opts.untaintedNodes) && opts.nodesDelta >= 0
+//@   requires c != nil && opts.nodeGroup != nil && c.Client != nil && c.cloudProvider != nil && k8s.named(opts.taintedNodes) && k8s.named(opts.untaintedNodes) && opts.nodesDelta >= 0
 //@   requires k8s.infoMapOK(opts.nodeGroup.NodeInfoMap) && durCacheOK(optsOf(opts.nodeGroup))
+//@   requires [C01,C09,C10,C12] !dry(c, opts.nodeGroup) ==> allT(opts.taintedNodes) && allU(opts.untaintedNodes)
 //@   modifies Jlen, Jkind, Jname, Jnode, Jok, Jesc, clock, nTaintOK, nUntaintOK, getSeen, opts.nodeGroup.taintTracker, elems(opts.nodeGroup.taintTracker), opts.nodeGroup.Opts.softDeleteGracePeriodDuration, opts.nodeGroup.Opts.hardDeleteGracePeriodDuration
 //@   ensures Jlen >= old(Jlen) && jprefix(old(Jlen)) && clock >= old(clock) && durCacheOK(optsOf(opts.nodeGroup))
 //@   ensures [C11] dry(c, opts.nodeGroup) ==> Jlen == old(Jlen)
 //@   ensures [C03,C06] nUntaintOK == old(nUntaintOK) && old(nTaintOK) <= nTaintOK && nTaintOK - old(nTaintOK) <= max(0, len(opts.untaintedNodes) - opts.nodeGroup.Opts.MinNodes) && nTaintOK - old(nTaintOK) <= opts.nodesDelta
-//@   ensures [C01,C09,C10,C12] forall k :: old(Jlen) <= k && k < Jlen ==> (Jkind[k] == K_UPDATE && namedIn(Jname[k], opts.untaintedNodes)) || ((Jkind[k] == C_DELNODE || Jkind[k] == K_DELETE) && (exists i :: 0 <= i && i < len(opts.taintedNodes) && opts.taintedNodes[i].Name == Jname[k] && reapable(opts.taintedNodes[i], opts.nodeGroup, clock)))
+//@   ensures forall k :: old(Jlen) <= k && k < Jlen ==> Jkind[k] == K_UPDATE || Jkind[k] == C_DELNODE || Jkind[k] == K_DELETE
+//@   ensures [C01,C09,C10,C12] forall k :: old(Jlen) <= k && k < Jlen ==> LNby[Jname[k]] != nil && (Jkind[k] == K_UPDATE ==> clsU(LNby[Jname[k]])) && (Jkind[k] != K_UPDATE ==> clsT(LNby[Jname[k]]) && reapable(LNby[Jname[k]], opts.nodeGroup, clock))
 
 // ---------------------------------------------------------------- controller.go: classification
 
@@ -390,18 +412,20 @@ package controller
 // filterNodes. C09 (outside dry mode): cordoned nodes go to the cordoned list only, whatever taints they
 // carry; the other three lists hold exactly the uncordoned nodes that are force-tainted / tainted / neither.
 //@ func (*Controller).filterNodes(c, nodeGroup, allNodes) (untaintedNodes, taintedNodes, forceTaintedNodes, cordonedNodes)
-//@   requires c != nil && nodeGroup != nil && nodesOK(allNodes)
+//@   requires c != nil && nodeGroup != nil && k8s.named(allNodes)
+//@   ensures k8s.named(untaintedNodes) && k8s.named(taintedNodes) && k8s.named(forceTaintedNodes) && k8s.named(cordonedNodes)
 //@   ensures subOf(untaintedNodes, allNodes, len(allNodes)) && subOf(taintedNodes, allNodes, len(allNodes)) && subOf(forceTaintedNodes, allNodes, len(allNodes)) && subOf(cordonedNodes, allNodes, len(allNodes))
 //@   ensures fresh(base(untaintedNodes)) && fresh(base(taintedNodes)) && fresh(base(forceTaintedNodes)) && fresh(base(cordonedNodes))
 //@   ensures len(untaintedNodes) + len(taintedNodes) + len(forceTaintedNodes) + len(cordonedNodes) == len(allNodes)
-//@   ensures [C09] !dry(c, nodeGroup) ==> (forall j :: 0 <= j && j < len(untaintedNodes) ==> clsU(untaintedNodes[j])) && (forall j :: 0 <= j && j < len(taintedNodes) ==> clsT(taintedNodes[j])) && (forall j :: 0 <= j && j < len(forceTaintedNodes) ==> clsF(forceTaintedNodes[j])) && (forall j :: 0 <= j && j < len(cordonedNodes) ==> unsched(cordonedNodes[j]))
-//@   ensures [C09] !dry(c, nodeGroup) ==> (forall i :: 0 <= i && i < len(allNodes) && clsU(allNodes[i]) ==> (exists j :: 0 <= j && j < len(untaintedNodes) && untaintedNodes[j] == allNodes[i]))
+//@   ensures [C01,C03,C06,C09,C10,C13] !dry(c, nodeGroup) ==> (forall j :: 0 <= j && j < len(untaintedNodes) ==> clsU(untaintedNodes[j])) && (forall j :: 0 <= j && j < len(taintedNodes) ==> clsT(taintedNodes[j])) && (forall j :: 0 <= j && j < len(forceTaintedNodes) ==> clsF(forceTaintedNodes[j])) && (forall j :: 0 <= j && j < len(cordonedNodes) ==> unsched(cordonedNodes[j]))
+//@   ensures [C03,C06,C09,C13] !dry(c, nodeGroup) ==> (forall i :: 0 <= i && i < len(allNodes) && clsU(allNodes[i]) ==> (exists j :: 0 <= j && j < len(untaintedNodes) && untaintedNodes[j] == allNodes[i]))
 //@ loop #0
 //@   modifies elems(untaintedNodes), elems(taintedNodes), elems(forceTaintedNodes), elems(cordonedNodes)
 //@   invariant base(untaintedNodes) == entry(base(untaintedNodes)) && base(taintedNodes) == entry(base(taintedNodes)) && base(forceTaintedNodes) == entry(base(forceTaintedNodes)) && base(cordonedNodes) == entry(base(cordonedNodes))
 //@   invariant ownBuf(untaintedNodes, len(allNodes)) && ownBuf(taintedNodes, len(allNodes)) && ownBuf(forceTaintedNodes, len(allNodes)) && ownBuf(cordonedNodes, len(allNodes))
 //@   invariant len(untaintedNodes) + len(taintedNodes) + len(forceTaintedNodes) + len(cordonedNodes) == #i
 //@   invariant subOf(untaintedNodes, allNodes, #i) && subOf(taintedNodes, allNodes, #i) && subOf(forceTaintedNodes, allNodes, #i) && subOf(cordonedNodes, allNodes, #i)
+//@   invariant k8s.named(untaintedNodes) && k8s.named(taintedNodes) && k8s.named(forceTaintedNodes) && k8s.named(cordonedNodes)
 //@   invariant !dry(c, nodeGroup) ==> (forall j :: 0 <= j && j < len(untaintedNodes) ==> clsU(untaintedNodes[j])) && (forall j :: 0 <= j && j < len(taintedNodes) ==> clsT(taintedNodes[j])) && (forall j :: 0 <= j && j < len(forceTaintedNodes) ==> clsF(forceTaintedNodes[j])) && (forall j :: 0 <= j && j < len(cordonedNodes) ==> unsched(cordonedNodes[j]))
 //@   invariant !dry(c, nodeGroup) ==> (forall i :: 0 <= i && i < #i && clsU(allNodes[i]) ==> (exists j :: 0 <= j && j < len(untaintedNodes) && untaintedNodes[j] == allNodes[i]))
 
@@ -496,7 +520,7 @@ package controller
 
 //@ func (*Controller).scaleNodeGroup(c, nodegroup, nodeGroup) (delta, err)
 //@   requires c != nil && c.Client != nil && c.cloudProvider != nil && groupInv(nodeGroup)
-//@   modifies Jlen, Jkind, Jname, Jnode, Jok, Jesc, Jnum, clock, nTaintOK, nUntaintOK, getSeen, LNb, LNo, LNl, LPb, LPo, LPl
+//@   modifies Jlen, Jkind, Jname, Jnode, Jok, Jesc, Jnum, clock, nTaintOK, nUntaintOK, getSeen, LNb, LNo, LNl, LNby, LPb, LPo, LPl
 //@   modifies nodeGroup.taintTracker, elems(nodeGroup.taintTracker), nodeGroup.NodeInfoMap, nodeGroup.cpuCapacity, nodeGroup.memCapacity, nodeGroup.lastScaleOut
 //@   modifies nodeGroup.scaleUpLock.isLocked, nodeGroup.scaleUpLock.requestedNodes, nodeGroup.scaleUpLock.lockTime
 //@   modifies nodeGroup.Opts.softDeleteGracePeriodDuration, nodeGroup.Opts.hardDeleteGracePeriodDuration, nodeGroup.Opts.maxNodeAgeDuration
@@ -504,6 +528,6 @@ package controller
 //@   ensures [C11] dry(c, nodeGroup) ==> Jlen == old(Jlen)
 //@   ensures [C02] lockedAt(nodeGroup, clock) && old(nodeGroup.scaleUpLock.lockTime) == nodeGroup.scaleUpLock.lockTime ==> Jlen == old(Jlen)
 //@   ensures [C04] forall k :: old(Jlen) <= k && k < Jlen && Jkind[k] == C_INCREASE ==> Jname[k] == gid(nodeGroup) && Jnum[k] >= 1 && tgt(gid(nodeGroup)) + Jnum[k] <= min(nodeGroup.Opts.MaxNodes, cmax(gid(nodeGroup)))
-//@   ensures [C09] !dry(c, nodeGroup) ==> (forall k :: old(Jlen) <= k && k < Jlen && (Jkind[k] == K_UPDATE || Jkind[k] == K_DELETE || Jkind[k] == C_DELNODE) ==> (exists i :: 0 <= i && i < len(k8s.listedNodes()) && k8s.listedNodes()[i].Name == Jname[k] && !unsched(k8s.listedNodes()[i])))
-//@   ensures [C01,C10] forall k :: old(Jlen) <= k && k < Jlen && (Jkind[k] == K_DELETE || Jkind[k] == C_DELNODE) ==> (exists i :: 0 <= i && i < len(k8s.listedNodes()) && k8s.listedNodes()[i].Name == Jname[k] && delOK(k8s.listedNodes()[i], nodeGroup, clock))
+//@   ensures [C09] !dry(c, nodeGroup) ==> (forall k :: old(Jlen) <= k && k < Jlen && (Jkind[k] == K_UPDATE || Jkind[k] == K_DELETE || Jkind[k] == C_DELNODE) ==> LNby[Jname[k]] != nil && !unsched(LNby[Jname[k]]))
+//@   ensures [C01,C10] forall k :: old(Jlen) <= k && k < Jlen && (Jkind[k] == K_DELETE || Jkind[k] == C_DELNODE) ==> LNby[Jname[k]] != nil && delOK(LNby[Jname[k]], nodeGroup, clock)
 //@   ensures [C01] Jlen > old(Jlen) ==> (forall i, j :: 0 <= i && i < len(k8s.listedNodes()) && 0 <= j && j < len(k8s.listedPods()) && k8s.nodeEmptyIn(k8s.listedNodes()[i], nodeGroup.NodeInfoMap) && k8s.listedPods()[j].Spec.NodeName == k8s.listedNodes()[i].Name ==> k8s.isDS(k8s.listedPods()[j]))
